@@ -148,6 +148,54 @@ def run(tier: str) -> int:
             rep.violation("fixrot:angular-momentum", f"FixRot leaves |L| = {np.abs(L).max():.3e} (scale {scale:.3e}) for a non-collinear geometry", {"positions": pos.tolist(), "masses": a.get_masses().tolist()})
         if np.abs(q.sum(0) - P0).max() > 1e-9 * (np.abs(p).sum() + 1e-30):
             rep.violation("fixrot:linear-momentum", f"FixRot changed the total linear momentum by {np.abs(q.sum(0) - P0).max():.3e}", {"positions": pos.tolist()})
+    # ---- the same for nearly linear (but not collinear) molecules in any orientation, and for ONE constraint object used
+    # again after the masses (isotopologue) or the geometry changed -----------------------------------------------------
+    shared = FixRot()
+    nlin = 60 if tier == "quick" else 1500
+    for it in range(nlin):
+        n = int(rs.randint(3, 7))
+        axis = rs.randn(3)
+        axis /= np.linalg.norm(axis)
+        off = float(10 ** rs.uniform(-2, -0.5))  # perpendicular scatter 0.01 .. 0.3 A on a molecule a few A long
+        pos = np.outer(np.arange(n) * 1.2, axis) + rs.randn(n, 3) * off + rs.uniform(-3, 3, 3)
+        a = Atoms("C" * n, positions=pos)
+        for stage in range(2):
+            a.set_masses(rs.uniform(1, 40, n))  # stage 1: same geometry, other masses, same constraint object
+            I = a.get_moments_of_inertia()
+            if I.min() < 1e-7 * I.max():
+                break
+            p = rs.uniform(-10, 10, (n, 3))
+            q = p.copy()
+            shared.adjust_momenta(a, q)
+            r = a.positions - a.get_center_of_mass()
+            L = np.cross(r, q).sum(0)
+            scale = np.abs(np.cross(r, p)).sum() + 1e-30
+            rep.count(("fixrot-linear", it, stage))
+            if np.abs(L).max() > 1e-6 * scale:
+                what = "nearly-linear" if stage == 0 else "same-object-other-masses"
+                rep.violation(f"fixrot:angular-momentum:{what}", f"FixRot leaves |L| = {np.abs(L).max():.3e} (scale {scale:.3e}) for a nearly linear, non-collinear molecule (I_min / I_max = {I.min() / I.max():.1e}){' after the masses were changed at the same geometry (one constraint object)' if stage else ''}", {"positions": pos.tolist(), "masses": a.get_masses().tolist()})
+                break
+            if np.abs(q.sum(0) - p.sum(0)).max() > 1e-9 * (np.abs(p).sum() + 1e-30):
+                rep.violation("fixrot:linear-momentum:nearly-linear", "FixRot changed the total linear momentum", {"positions": pos.tolist()})
+                break
+    # one constraint object, compact molecules: masses change at fixed geometry, then the geometry changes
+    for it in range(40 if tier == "quick" else 800):
+        n = int(rs.randint(3, 8))
+        a = Atoms("O" * n, positions=rs.randn(n, 3) * 1.5)
+        for stage in range(3):
+            if stage == 2:
+                a.positions = a.positions + rs.randn(n, 3) * 0.4
+            a.set_masses(rs.uniform(1, 200, n))
+            p = rs.uniform(-10, 10, (n, 3))
+            q = p.copy()
+            shared.adjust_momenta(a, q)
+            r = a.positions - a.get_center_of_mass()
+            L = np.cross(r, q).sum(0)
+            scale = np.abs(np.cross(r, p)).sum() + 1e-30
+            rep.count(("fixrot-shared", it, stage))
+            if np.abs(L).max() > 1e-9 * scale and a.get_moments_of_inertia().min() > 1e-3 * a.get_moments_of_inertia().max():
+                rep.violation("fixrot:angular-momentum:same-object-reused", f"one FixRot object used again after {'the geometry' if stage == 2 else 'the masses'} changed leaves |L| = {np.abs(L).max():.3e} (scale {scale:.3e})", {"stage": stage})
+                break
     rep.add(constraint_runs=2 * nrun, fixrot_cases=nrot, worst_fixrot_residual=worst,
             rule="(a) engine traces (Canonical, HamiltonianCanonical, Isobaric, GrandCanonical with FixAtoms / FixCom) validated against QMC.tla + exhaustive MC_QMC.tla (C12_FixedNeverMove); (b) runs of displacement (vetoing check_move, composites, molecular rotation), Hamiltonian (dt 0.5 / 2 fs, 1-20 steps, vetoes) and force-bias moves (delta 0.01 / 0.3, T 300 / 5000, fictitious sampler masses) with FixCom (drift <= 1e-9 A) and FixAtoms (exactly unmoved); FixRot.adjust_momenta on random non-collinear geometries (|L| and dP <= 1e-9 relative)")
     rep.assumptions += ["FixCom drift tolerance 1e-9 A; FixAtoms: bit-exact", "geometries whose smallest principal moment is below 1e-3 of the largest are outside the FixRot clause"]
